@@ -98,9 +98,25 @@ def run(repo, rep):
     sites = [("live_range", li[0].value, {"len(op_info.ofm_depth_slices)": None, "len(op_info.buffered_weight_tensors)": None})]
     bad = None
     n = 0
+    # locals computed just before the index (`n = len(..) - 1; last_idx = n % len(..)`) are inlined before folding
+    import copy as _copy
+
+    def _inline(expr, fn_, before, depth=0):
+        bases = {a_.value.id for a_ in ast.walk(expr) if isinstance(a_, ast.Attribute) and isinstance(a_.value, ast.Name)}
+
+        class _S(ast.NodeTransformer):
+            def visit_Name(self, node):
+                if isinstance(node.ctx, ast.Load) and depth < 3 and node.id not in bases:
+                    ds = [st_ for st_ in ast.walk(fn_) if isinstance(st_, ast.Assign) and len(st_.targets) == 1 and isinstance(st_.targets[0], ast.Name) and st_.targets[0].id == node.id and st_.lineno < before]
+                    if len(ds) == 1:
+                        return _inline(_copy.deepcopy(ds[0].value), fn_, ds[0].lineno, depth + 1)
+                return node
+        return ast.fix_missing_locations(_S().visit(_copy.deepcopy(expr)))
+
+    li_expr = _inline(li[0].value, f, li[0].lineno)
     for nbuf in (1, 2):
         for L in range(2, 9):
-            lr_last = eval_with(li[0].value, {"len(op_info.ofm_depth_slices)": L, "len(op_info.buffered_weight_tensors)": nbuf})
+            lr_last = eval_with(li_expr, {"len(op_info.ofm_depth_slices)": L, "len(op_info.buffered_weight_tensors)": nbuf})
             gen_last = eval_with(gi[0].value, {"depth_idx": L - 2, "len(op_info.buffered_weight_tensors)": nbuf})
             if lr_last is None or gen_last is None:
                 raise AnalysisError("buffer parity expressions not foldable")
